@@ -240,6 +240,17 @@ Theorem C18_clean_exit :
 Proof. exact clean_exit_lemma. Qed.
 Print Assumptions C18_clean_exit.
 
+(* stop_remaining_actors: with leftover actors that respawn while being stopped (finitely often)
+   the `while` loop leaves nothing registered; a single pass would *)
+Theorem C18_stop_remaining_loop_empties : forall left budget, sweep_while (S budget) left budget = 0.
+Proof. exact sweep_while_empties_lemma. Qed.
+Print Assumptions C18_stop_remaining_loop_empties.
+
+Theorem C18_stop_remaining_single_pass_refuted :
+  forall left budget, 0 < left -> 0 < budget -> 0 < sweep_once left budget.
+Proof. exact sweep_once_leaves_lemma. Qed.
+Print Assumptions C18_stop_remaining_single_pass_refuted.
+
 (* the monitor evaluated on real executions is a theorem about the model *)
 Theorem C18_model_passes_monitor :
   forall o, exists z s,
